@@ -123,7 +123,7 @@ def verify(d, checks, tier, suite=True):
             print('%s %s exit=%d violations=%d sigs=%s replays=%s' % (c, tier, r.returncode, len(vio), entry['signatures'][:3], reps))
         meta['property'] = prop
         meta['confirmed'] = ok
-        caught = sorted(k for k, v in det.items() if v['exit'] == 1)
+        caught = sorted(k for k, v in det.items() if v['exit'] == 1 and v['violations'] > 0)
         meta['caught_by'] = caught
         json.dump(meta, open(meta_path, 'w'), indent=1)
         return 0 if ok else 2
